@@ -280,6 +280,61 @@ def has_reg0(layout):
     return any(node[0] == 'reg' and node[1] == 0 for _, node in G.nodes(layout))
 
 
+def reg_untrimmed(layout):
+    """a RegularArray whose content is longer than size * length (RegularArray::broadcast_tooffsets64 hands the
+    whole content on)"""
+    for _, node in G.nodes(layout):
+        if node[0] == 'reg' and isinstance(node[1], int):
+            n = G.child_len(node[3])
+            if n is not None and n > node[1] * node[2]:
+                return True
+    return False
+
+
+LAYOUT_IN_LINE = re.compile(r'\(arr ')
+
+
+def layouts_of(case):
+    """the layout trees of a case (parsed back from its text)"""
+    out = []
+    for l in case.layouts:
+        if l.startswith('(arr '):
+            out.append(parse_tree(l[5:-1]))
+    return out
+
+
+def parse_tree(s):
+    pos = [0]
+
+    def go():
+        while s[pos[0]] == ' ':
+            pos[0] += 1
+        if s[pos[0]] == '(':
+            pos[0] += 1
+            out = []
+            while True:
+                while s[pos[0]] == ' ':
+                    pos[0] += 1
+                if s[pos[0]] == ')':
+                    pos[0] += 1
+                    return out
+                out.append(go())
+        q = pos[0]
+        while q < len(s) and s[q] not in ' ()':
+            q += 1
+        a = s[pos[0]:q]
+        pos[0] = q
+        try:
+            return int(a)
+        except ValueError:
+            return a
+    return go()
+
+
+def has_node(layout, heads):
+    return any(node[0] in heads for _, node in G.nodes(layout))
+
+
 def top_optionlike(layout):
     node = layout
     while node[0] == 'par':
@@ -837,6 +892,24 @@ def signature(prop, c, impl, verdict):
     f = tg.get('func', c.op)
     if tg.get('negaxis_rec'):
         return 'negaxis-record-under-list'
+    msg = unhex(impl)
+    if impl.startswith('err') and 'cannot broadcast' in msg and ' of length ' in msg:
+        if any(reg_untrimmed(l) for l in layouts_of(c)):
+            return 'regular-broadcast-tooffsets-untrimmed-content'
+    lays = layouts_of(c)
+    if impl.startswith('err runtime') and 'index -1 is out of bounds' in msg and '_util.py' in msg:
+        return 'broadcast-all-same-offsets-empty-indexerror'
+    if c.op == 'concatenate' and tg.get('has_str'):
+        return 'mergeable-parameters-of-wrapper-node'
+    if c.op in ('concatenate', 'fill_none') and any(has_node(l, ('unm',)) for l in lays) \
+            and verdict.startswith('viol value') and not impl.startswith('err'):
+        return 'unmasked-fillna-recurses'
+    if any(has_reg0(l) for l in lays) and c.op in ('concatenate', 'cartesian', 'argcartesian', 'zip', 'unzip_zip', 'mask',
+                                                   'with_field', 'get_with_field'):
+        if impl.startswith('err') and 'RegularArray of size' in msg:
+            return 'regular-size1-to-size0'
+        if impl.startswith('ok') or ('cannot broadcast' in msg and ' of length ' in msg):
+            return 'regular-size0-length-lost'
     types = c.meta.get('types') or []
     ax = tg.get('axis')
     if isinstance(ax, int) and ax < 0 and types and negrec0(ax, *types):
@@ -870,8 +943,8 @@ def signature(prop, c, impl, verdict):
                 return 'cartesian-dict-nested-not-validated'
             if rax == 0 and tg.get('nested') in ('all', 'subset'):
                 return 'cartesian-axis0-nested-grouping'
-            if tg.get('reg0') and tg.get('axis', 0) >= 1 and impl.startswith('err'):
-                return 'cartesian-regular-size0'
+            if tg.get('reg0') and tg.get('axis', 0) >= 1 and impl.startswith('err') and 'RegularArray of size' in msg:
+                return 'regular-size1-to-size0'
     if prop == 'C10':
         if f in ('with_field', 'get_with_field') and tg.get('sole_field') and tg.get('shared', 1) >= 1:
             return 'with-field-sole-field-drops-structure'
